@@ -61,6 +61,9 @@ def parse_trace(text):
             cur['edits'][-1].setdefault('tablehex', {})[int(num)] = hx_.strip()
         elif line.startswith('LAYOUT '):
             cur['layout'] = line[7:]
+        elif line.startswith('MANIFESTHEX '):
+            _, num, hx_ = line.split(' ', 2)
+            cur['manifesthex'] = (int(num), hx_.strip())
         elif line.startswith('DIR'):
             cur['dir'] = line[3:].split()
         elif line.split(' ', 1)[0] in LIFE_PREFIXES:
@@ -171,6 +174,64 @@ def entries_count(s):
 
 def max_seq(ents):
     return max(int(t.split(':')[1], 16) for t in ents.split(','))
+
+CMP_NAMES = {0: b'leveldb.BytewiseComparator', 1: b'verif.ReverseBytewise', 2: b'verif.CaseInsensitive'}
+
+def layout_ikey_hex(t):
+    """'userkeyhex:seqhex:type' (put_ikey of harness/k2.c) -> hex of the encoded internal key"""
+    u, seq, ty = t.split(':')
+    return ('' if u == '-' else u) + ((int(seq, 16) << 8) | int(ty)).to_bytes(8, 'little').hex()
+
+def manifest_replay_compare(m, rev, call, kv, res):
+    """MANIFEST bytes at a quiescent point -> extracted replica of ldb_versions_recover -> must give what is in memory.
+    What must coincide (version_set.c): ldb_versions_apply writes every edit (with log number, prev log number,
+    next_file_number and last_sequence filled in) to the MANIFEST before installing it, and installs
+    vset->log_number / prev_log_number from the edit; so after the last edit
+      - the files of every level, IN ORDER, with size and smallest/largest keys      == replay,
+      - vset->log_number, vset->prev_log_number                                      == replay,
+      - the MANIFEST that is current is the one named by vset->manifest_file_number,
+      - replayed next_file_number (last recorded + 1) <= vset->next_file_number + 1 (numbers handed out since
+        the last edit are not recorded) and every live file / the log number is below the recorded next_file,
+      - replayed last_sequence <= vset->last_sequence (writes after the last edit live in the log only)."""
+    num, hx_ = call['manifesthex']
+    res.stats['manifest_replays'] = res.stats.get('manifest_replays', 0) + 1
+    r = m.ask('manifest_replay %s %s %d' % (CMP_NAMES[rev].hex(), hx_ if hx_ != '-' else '-', rev))
+    def bad(**kw):
+        res.problem('manifest-replay-mismatch', call['idx'], manifest=num, **kw)
+    if not r.startswith('ok '):
+        bad(detail='replay of the current MANIFEST fails', model=r[:300]); return
+    mkv = dict(t.split('=', 1) for t in r[3:].split(' '))
+    if num != int(kv['manifest']):
+        bad(detail='manifest number', implementation=kv['manifest'], printed=num)
+    for L in range(7):
+        cf = []
+        if kv['L%d' % L] != '.':
+            for t in kv['L%d' % L].split(','):
+                n_, sz, bounds = t.split(':', 2); lo, hi = bounds.split('/')
+                if lo.startswith('BAD') or hi.startswith('BAD'):
+                    cf.append((int(n_), int(sz), lo, hi)); continue
+                cf.append((int(n_), int(sz), layout_ikey_hex(lo), layout_ikey_hex(hi)))
+        mf = []
+        if mkv['L%d' % L] != '.':
+            for t in mkv['L%d' % L].split(','):
+                n_, sz, bounds = t.split(':', 2); lo, hi = bounds.split('/')
+                mf.append((int(n_, 16), int(sz, 16), lo, hi))
+        if cf != mf:
+            bad(detail='files of level %d' % L, implementation=[str(x) for x in cf][:40], model=[str(x) for x in mf][:40])
+        if any(x[0] >= int(mkv['manifest'], 16) for x in cf):
+            bad(detail='live file numbered at or above the recorded next_file', level=L, recorded=int(mkv['manifest'], 16))
+    res.stats['manifest_files_compared'] = res.stats.get('manifest_files_compared', 0) + sum(
+        0 if kv['L%d' % L] == '.' else kv['L%d' % L].count(',') + 1 for L in range(7))
+    if int(kv['lognum']) != int(mkv['log'], 16):
+        bad(detail='log number', implementation=kv['lognum'], model=int(mkv['log'], 16))
+    if int(kv['prevlog']) != int(mkv['prev'], 16):
+        bad(detail='prev log number', implementation=kv['prevlog'], model=int(mkv['prev'], 16))
+    if int(mkv['log'], 16) >= int(mkv['manifest'], 16):
+        bad(detail='log number at or above the recorded next_file', model=r[:200])
+    if int(mkv['next'], 16) > int(kv['nextfile']) + 1:
+        bad(detail='recorded next_file ahead of the counter in memory', implementation=kv['nextfile'], model=int(mkv['next'], 16))
+    if int(mkv['seq'], 16) > int(kv['lastseq'], 16):
+        bad(detail='recorded last_sequence ahead of the one in memory', implementation=kv['lastseq'], model=mkv['seq'])
 
 def validate(calls, ops, opts, model_exe, res, keys_known, check_every_layout=True, max_problems=12):
     """Walk the trace, drive the model; fills res (K2Result)."""
@@ -554,6 +615,9 @@ def validate(calls, ops, opts, model_exe, res, keys_known, check_every_layout=Tr
                         res.problem('layout-mismatch', call['idx'], level=L, implementation=cn, model=mn)
                 if int(kv['lastseq'], 16) != int(mkv['lastseq'], 16):
                     res.problem('layout-mismatch', call['idx'], detail='last sequence', implementation=kv['lastseq'], model=mkv['lastseq'])
+                # the bytes of the current MANIFEST replayed by the replica of ldb_versions_recover (ManifestReplay.v)
+                if call.get('manifesthex'):
+                    manifest_replay_compare(m, rev, call, kv, res)
                 # directory must hold exactly the live tables (C13 uses this too)
                 live = set()
                 for L in range(7):
